@@ -8,7 +8,7 @@ rsync -a --exclude .git --exclude '__pycache__' /repo/ "$D/"
 sed -i "$EXPR" "$D/$FILE"
 if diff -q /repo/$FILE "$D/$FILE" >/dev/null; then echo "MUTANT DID NOT CHANGE THE FILE"; rm -rf "$D"; exit 3; fi
 diff -u /repo/$FILE "$D/$FILE" | head -20
-VERIF_REPO="$D" /verif/vt check "$PROP" --tier "$TIER" | grep -v "^KNOWN-FINDING" | tail -6
+VERIF_EVIDENCE_DIR="$D/.evidence" VERIF_REPO="$D" /verif/vt check "$PROP" --tier "$TIER" | grep -v "^KNOWN-FINDING" | tail -6
 rc=${PIPESTATUS[0]}
 rm -rf "$D"
 echo "rc=$rc"
